@@ -1,13 +1,19 @@
 // The files patch_amd64.rs, patch_arm64.rs, patch_arm.rs, arm64_codegenerator.rs, utils.rs and
 // patch_trait.rs next to this one are copied UNMODIFIED from /repo/src/injector_core at check time,
+// (an emitter that no longer builds against the shim can be left out with --cfg sim_no_amd64 / sim_no_arm64 /
+// sim_no_arm: the scenarios that do not need it still run)
 // except that the leading `#![cfg(target_arch = ...)]` line is dropped and the predicate
 // `target_os = "macos"` is renamed to the cfg `sim_macos`. common.rs is the shim.
 #![allow(dead_code)]
 #![allow(unused_imports)]
+#[cfg(not(sim_no_arm64))]
 pub(crate) mod arm64_codegenerator;
 pub(crate) mod common;
+#[cfg(not(sim_no_amd64))]
 pub(crate) mod patch_amd64;
+#[cfg(not(sim_no_arm))]
 pub(crate) mod patch_arm;
+#[cfg(not(sim_no_arm64))]
 pub(crate) mod patch_arm64;
 pub(crate) mod patch_trait;
 pub(crate) mod utils;
